@@ -2,7 +2,8 @@
    ExtrOcamlBasic only: bool, option, unit, list, prod, sumbool, sumor map to OCaml's; N/Z/positive/nat
    stay the extracted inductive types. *)
 From Coq Require Import Extraction ExtrOcamlBasic.
-From BS Require Import Base ArchModel ArchCodec.
+From BS Require Import Base ArchModel ArchCodec ArchProofs ArchValidation.
 Extraction Language OCaml.
 Extraction "../ml/gen/arch_model.ml" run_popload run_validate type_catalogue class_catalogue
-  mkArch mkPols xml_arch load_seq load_fwd load_vbool add_validation_error.
+  mkArch mkPols xml_arch load_seq load_fwd load_vbool add_validation_error
+  has_unloaded validate_class.
